@@ -503,7 +503,79 @@ func genTbls(rng *hx.Rng, tier string, w *hx.Writer, mode string) error {
 				Tags: []string{"sign", "nt"}, Re: signOnce})
 		}
 	}
+	// (c) a short entry that is a prefix of a genuine share whose remaining bytes are all zero, placed
+	// before that share; the share is needed to reach the threshold
+	nz := 6
+	if tier == "thorough" {
+		nz = 60
+	}
+	for it := 0; it < nz; it++ {
+		n := 3 + rng.Intn(4)
+		t := 2 + rng.Intn(n-1)
+		s := newSetup(rng, t, n)
+		var ents []sigEnt
+		if it%2 == 0 {
+			// a member whose key share is zero: its signature share is the point at infinity
+			k := rng.Intn(n)
+			if it%4 == 0 {
+				k = 0
+			}
+			x := big.NewInt(int64(k + 1))
+			acc, pw := new(big.Int), big.NewInt(1)
+			for j := 1; j < t; j++ {
+				pw = new(big.Int).Mod(new(big.Int).Mul(pw, x), BnQ)
+				acc.Add(acc, new(big.Int).Mul(s.coeffs[j], pw))
+			}
+			s.coeffs[0] = acc.Neg(acc).Mod(acc, BnQ)
+			s.pub = share.NewPubPoly(Bn.G2(), nil, points(Bn.G2(), s.coeffs, BnQ))
+			if k == 0 {
+				ents = append(ents, sigEnt{"short0", []byte{}, -1, nil})
+			}
+			ents = append(ents, sigEnt{"short2", []byte{byte(k >> 8), byte(k)}, k, nil})
+			ents = append(ents, sigEnt{"valid", withIndex(k, make([]byte, 64)), k, big.NewInt(0)})
+			for _, i := range rng.Perm(n) {
+				if i != k && len(ents) < t+1+btoi(k == 0) {
+					d := s.shareLog(i, s.coeffs, s.hm)
+					ents = append(ents, sigEnt{"valid", withIndex(i, g1Bytes(d)), i, d})
+				}
+			}
+		} else {
+			// a message for which some member's share ends in a zero byte; the copy cut by one byte first
+			k := -1
+			for try := 0; try < 4000 && k < 0; try++ {
+				s.msg = rng.Bytes(1 + rng.Intn(40))
+				s.hm = keccakModQ(s.msg)
+				for i := 0; i < n; i++ {
+					if b := g1Bytes(s.shareLog(i, s.coeffs, s.hm)); b[63] == 0 {
+						k = i
+						break
+					}
+				}
+			}
+			if k < 0 {
+				continue
+			}
+			d := s.shareLog(k, s.coeffs, s.hm)
+			full := withIndex(k, g1Bytes(d))
+			ents = append(ents, sigEnt{"trunc", append([]byte{}, full[:65]...), k, nil})
+			ents = append(ents, sigEnt{"valid", full, k, d})
+			for _, i := range rng.Perm(n) {
+				if i != k && len(ents) < t+1 {
+					d := s.shareLog(i, s.coeffs, s.hm)
+					ents = append(ents, sigEnt{"valid", withIndex(i, g1Bytes(d)), i, d})
+				}
+			}
+		}
+		tblsCase(rng, w, s, ents, mode)
+	}
 	return nil
+}
+
+func btoi(b bool) int {
+	if b {
+		return 1
+	}
+	return 0
 }
 
 func tblsVerifyCase(rng *hx.Rng, w *hx.Writer, s *tblsSetup, e sigEnt, msg []byte, pub *share.PubPoly, coeffs []*big.Int, tag string) {
